@@ -1116,6 +1116,42 @@ def crash_programs_c18(verif_seed, tier):
     return out
 
 
+def line_crash_programs_c18(tier):
+    """Line-level crash points inside a history: every letter is executed once without interruption (reference pass); then one of
+    its calls is issued again and cut short by an asynchronous interrupt at a source line (the enumeration target); then ALL its
+    calls are issued again, starting with the one after the interrupted call (second pass) -- each must return what it returned in
+    the reference pass, and every invariant must hold.  Self-contained: the replay needs no outside reference."""
+    import copy
+    out = []
+    for L in sorted(ALPHABET):
+        base = history((L, ))
+        calls = [s for s in base["steps"] if s["op"] == "call"]
+        if not calls:
+            continue
+        # the interrupted call: prefer calls on different operands (first, last, middle)
+        picks = sorted({0, len(calls) - 1, len(calls) // 2})
+        for t in picks if tier == "thorough" else picks[:2]:
+            p = copy.deepcopy(base)
+            nid = len(p["steps"])
+            tgt = copy.deepcopy(calls[t])
+            tgt.pop("x", None)
+            tgt.pop("out", None)
+            tgt["id"] = nid
+            tgt["repeat_of"] = calls[t]["id"]
+            p["steps"].append(tgt)
+            order = calls[t + 1:] + calls[:t + 1]
+            for j, c in enumerate(order):
+                r = copy.deepcopy(c)
+                r.pop("out", None)
+                r.pop("x", None)  # the second pass is fault-free (an ordinary exception may trigger clean-up that hides the damage)
+                r["id"] = nid + 1 + j
+                r["repeat_of"] = c["id"]
+                p["steps"].append(r)
+            p["config"] = {"letters": [L], "line_crash": t}
+            out.append({"program": p, "target": nid, "name": "%s@call%d" % (L, t)})
+    return out
+
+
 # =========================================================================================
 # Differential histories: the same seeded history with a random subset of its steps removed.
 # In a purely functional API every call that is present in both must return the identical result.
